@@ -160,7 +160,6 @@ pub fn serde_like_cli(adf: &Adf) -> Adf {
 pub fn one_history(rng: &mut StdRng, id: String, out: &mut Vec<Value>, persist: bool) {
     let n = rng.gen_range(2..=5);
     let case = rand_adf(rng, n, id.clone());
-    let text = case.text();
     // a third of the histories stay within the call kinds whose store-level transcription exists (grounded, complete, stable,
     // extra formulas) on a natively compiled object: the model then follows them handle by handle (Trace_Bdd, drift only)
     let followable = !persist && rng.gen_range(0..3) == 0;
@@ -176,6 +175,58 @@ pub fn one_history(rng: &mut StdRng, id: String, out: &mut Vec<Value>, persist: 
         .collect();
     let persist_at = if persist { rng.gen_range(0..=len) } else { usize::MAX };
     let persist_how = if rng.gen_bool(0.5) { "serde" } else { "rebuild" };
+    run_history(id, &case, backend, calls, persist, persist_at, persist_how, out);
+}
+
+/// the answers of one history on one fresh object, nothing else (cheap: used to pre-select histories worth a full record)
+fn quick_answers(text: &str, backend: Backend, calls: &[HCall]) -> Vec<Vec<Vec<usize>>> {
+    let parser = AdfParser::default();
+    parser.parse()(text).unwrap();
+    let mut adf = build_adf(&parser, backend);
+    calls.iter().map(|c| do_call(&mut adf, text, c)).collect()
+}
+
+/// Determinism pre-filter (C11): many more ADFs than TLC could judge one by one run a fixed history twice on two fresh objects;
+/// every history whose two runs differ (raw handles, order) - and a sample of the others - becomes a full record for TLC.
+pub fn determinism_prefilter(rng: &mut StdRng, cases: usize, out: &mut Vec<Value>) {
+    let mk = |c: &'static str, h: &'static str, seed: u64| HCall { c, h, seed, ops: vec![] };
+    let mut differing = 0usize;
+    let mut emitted = 0usize;
+    for k in 0..cases {
+        if give_up() {
+            break;
+        }
+        let n = rng.gen_range(3..=5);
+        let id = format!("d{}", k);
+        let case = rand_adf(rng, n, id.clone());
+        let text = case.text();
+        let backend = [Backend::Native, Backend::Hybrid, Backend::HybridNoPre][rng.gen_range(0..3)];
+        let seed: u64 = rng.gen();
+        let calls = vec![mk("grounded", "-", 0), mk("complete", "-", 0), mk("ng", "MinModMinPathsMaxVarImp", 0), mk("ng", "MinModMaxVarImpMinPaths", 0),
+                         mk("ng", "Rand", seed), mk("stable", "-", 0), mk("twoval", "MinModMinPathsMaxVarImp", 0), mk("ng", "Rand", seed), mk("count_a", "-", 0)];
+        breadcrumb(&json!({"kind": "history-prefilter", "id": id, "text": text, "src": backend.name()}));
+        let (t1, c1) = (text.clone(), calls.clone());
+        let r = guarded(60, move || {
+            let a = quick_answers(&t1, backend, &c1);
+            let b = quick_answers(&t1, backend, &c1);
+            a == b
+        });
+        let same = matches!(r, Outcome::Ok(true));
+        if !same {
+            differing += 1;
+        }
+        if (!same && emitted < 25) || k % 2000 == 0 {
+            emitted += 1;
+            run_history(id, &case, backend, calls, false, usize::MAX, "serde", out);
+        }
+    }
+    out.push(json!({"kind": "stat", "id": "determinism-prefilter", "cases": cases, "differing": differing, "emitted": emitted}));
+}
+
+#[allow(clippy::too_many_arguments)]
+pub fn run_history(id: String, case: &AdfCase, backend: Backend, calls: Vec<HCall>, persist: bool, persist_at: usize, persist_how: &'static str, out: &mut Vec<Value>) {
+    let n = case.asts.len();
+    let text = case.text();
     crate::util::breadcrumb(&json!({"kind": "history", "id": id, "text": text, "src": backend.name(), "calls": calls.iter().map(call_json).collect::<Vec<_>>(),
                                     "persist_at": if persist { persist_at as i64 } else { -1 }, "persist_how": persist_how}));
 
@@ -306,7 +357,13 @@ pub fn main(args: &[String]) {
     let n = if tier == "thorough" { 3000 } else if tier == "feat" { 120 } else { 400 };
     let mut recs = Vec::new();
     for k in 0..n {
+        if give_up() {
+            break;
+        }
         one_history(&mut rng, format!("h{}", k), &mut recs, persist);
+    }
+    if !persist && tier != "feat" {
+        determinism_prefilter(&mut rng, if tier == "thorough" { 120_000 } else { 20_000 }, &mut recs);
     }
     let mut f = std::io::BufWriter::new(std::fs::File::create(&out).expect("cannot create out file"));
     for r in &recs {
